@@ -389,6 +389,10 @@ func MResult(pat string, idx int, args ...M) M {
 			return cm(t.Args[0])
 		}
 		if t.Op == "call" || t.Op == "len" {
+			// the call value itself stands for its result only when there is exactly one
+			if t.Call != nil && t.Call.Call.Signature().Results().Len() > 1 {
+				return false
+			}
 			return (idx <= 0) && cm(t)
 		}
 		return false
